@@ -50,6 +50,11 @@ const RISKY: &[&str] = &[
     // the shape whose result column order is known to vary
     "from t2 | select {id, s} | select {c0 = s ?? \"z\", id} | join r0 = (from t2 | select {c1 = id == 0}) (true) | group {id} (sort {c0} | take 1)\n",
     "from t1 | select {id, a, b} | remove (from t2 | select {id, a, b}) | intersect (from t3 | select {id, a, b})\n",
+    // inline data whose rows have different key sets / orders (keys are held in hash maps)
+    "from_text format:json '[{\"k\": 1, \"a\": 2}, {\"a\": 3, \"k\": 4, \"z1\": 5, \"z2\": 6, \"z3\": 7}]' | sort {k}\n",
+    "from_text format:json '{\"columns\": [\"k\", \"a\", \"b\"], \"data\": [[1, 2, 3], [4, 5, 6]]}' | select {b, k}\n",
+    "from_text 'k,a,b\n1,2,3\n4,5,6' | derive {c = a + b}\n",
+    "from [{k = 1, a = 2, b = 3}, {k = 4, a = 5, b = 6}] | select {b, a, k}\n",
     // sources known to panic in different stages
     "let f = x -> internal std.math\nfrom t1 | select {y = f a}\n",
     "from t1 | select {id, a} | derive {c2 = id} | sort {id} | select {c5 = c2}\n",
